@@ -103,3 +103,8 @@ def fingerprint(r, clauses):
 
 def sample(r):
     return dict(table=r['label'], fields=len(r['fields']), data=r['data'][:24], listed=len(r['listed']))
+
+
+def corrupt(r):
+    r['listed'] = r['listed'] + [dict(name=[120], digits=[48, 49])]
+    return r
